@@ -42,15 +42,20 @@ PROFILES = [
 # ---------------------------------------------------------------------------
 
 
-def const_time(n) -> bool:
-    """Does the node report compile-time constant start/end times?"""
+def const_times(n) -> tuple[bool, bool]:
+    """(start is a compile-time constant, end is a compile-time constant) of the node's parse result."""
     if n["t"] in ("choose", "alloc"):
-        return True
+        return (True, True)
     if n["t"] == "scale":
-        return const_time(n["ch"][0])
+        return const_times(n["ch"][0])
     if n["t"] == "lt":
-        return const_time(n["ch"][0]) and const_time(n["ch"][1])
-    return False
+        return (const_times(n["ch"][0])[0], const_times(n["ch"][1])[1])
+    return (False, False)
+
+
+def static_lt(n) -> bool:
+    """LessThan whose ordering is decided at compile time (first child's end and second child's start are constants)."""
+    return n["t"] == "lt" and const_times(n["ch"][0])[1] and const_times(n["ch"][1])[0]
 
 
 def const_ind(n) -> bool:
@@ -60,7 +65,7 @@ def const_ind(n) -> bool:
     if n["t"] == "scale":
         return const_ind(n["ch"][0])
     if n["t"] == "lt":
-        return const_time(n["ch"][0]) and const_time(n["ch"][1])
+        return static_lt(n)
     if n["t"] == "min":
         return all(const_ind(c) for c in n["ch"])
     return False
@@ -76,11 +81,15 @@ def features(case) -> list[str]:
     if g > 1:
         f.add("coarse")
     for n in nodes:
-        if n["t"] == "lt" and const_time(n["ch"][0]) and const_time(n["ch"][1]):
+        if static_lt(n):
             if any(x["t"] == "choose" for c in n["ch"] for x in gen.walk(c)):
                 f.add("static-lessthan")
+        if n["t"] == "lt" and not static_lt(n):
+            f.add("lessthan-variable-times")
         if n["t"] == "min" and all(const_ind(c) for c in n["ch"]):
-            f.add("min-of-constant-indicators")
+            f.add("constant-utility-term")
+        if n["t"] == "scale" and n["disregard"] and n["f"] != 0 and const_ind(n["ch"][0]):
+            f.add("constant-utility-term")
         if n["t"] == "choose" and n["u"] == 0:
             f.add("zero-utility")
         if n["t"] == "scale" and n["f"] == 0:
@@ -94,10 +103,14 @@ def features(case) -> list[str]:
     return sorted(f)
 
 
-def signature(problems: list[str], feats: list[str], passes: int) -> str:
-    cls = sorted({p.split(":")[0] + ":" + p.split(":")[1].split("-")[0] for p in problems})
-    # capacity problems carry partition/time numbers: keep only the class
-    return f"C20 oracle: {' '.join(cls)} | features: {' '.join(feats) or 'none'} | passes: {passes}"
+def pclass(problem: str) -> str:
+    """Problem class: capacity problems carry partition / time numbers, drop them."""
+    return "capacity:oversubscribed" if problem.startswith("capacity:") else problem
+
+
+def signatures(problems: list[str], feats: list[str], passes: int) -> list[str]:
+    """One signature per violated clause: `C20 <clause> | features: … | passes: n`."""
+    return [f"C20 {c} | features: {' '.join(feats) or 'none'} | passes: {passes}" for c in sorted({pclass(p) for p in problems})]
 
 
 # ---------------------------------------------------------------------------
@@ -196,7 +209,9 @@ class Batch:
                 c = dict(case)
                 c["passes"] = ps
                 jobs.append((f"{cid}/p{ps}", c, None))
-        dumps = cxx.run(jobs)
+        # the discretisation-selection pass is known to loop (C20-F8): those jobs run under the per-case watchdog
+        dumps = cxx.run([j for j in jobs if not j[1]["passes"] & 4], timeout=30 if tier == "quick" else 120)
+        dumps.update(cxx.run([j for j in jobs if j[1]["passes"] & 4], watchdog=True))
         lean = {}
         if self.use_lean:
             reqs = [dict(case) for _, case in cases]
@@ -206,10 +221,15 @@ class Batch:
         base_opt = {}
         for cid, case in cases:
             feats = features(case)
+            overflow = bool(oracle.usage_problems(case, {}))
             for ps in passes_list:
                 jid = f"{cid}/p{ps}"
                 d = dumps[jid]
                 cerr = d["err"].split(":")[0] if d["err"] else None
+                if cerr in ("TIMEOUT", "CRASH"):
+                    what = "compile:does-not-terminate" if cerr == "TIMEOUT" else "compile:crashes"
+                    self.findings.append((signatures([what], feats, ps)[0], {"case": case, "passes": ps, "problems": [d["err"]]}))
+                    continue
                 if ps == 0 and self.use_lean:
                     l = lean[cid]
                     if "protocol_error" in l:
@@ -233,6 +253,10 @@ class Batch:
                         continue
                     self.count("models-compared")
                     self.count("constraints-compared", len(d["cons"]))
+                if overflow:
+                    # precondition of the property: the Allocations (already running tasks) fit the partitions
+                    self.count("precondition-violated:allocations-exceed-capacity")
+                    continue
                 status, opt, assigns = self.assignments(rng.sub(jid), case, d, tier)
                 self.count(f"solve:{status}")
                 if ps == 0:
@@ -244,7 +268,8 @@ class Batch:
             c = dict(case)
             c["passes"] = ps
             jobs2.append((jid, c, [a for _, a in assigns]))
-        back = cxx.run(jobs2) if jobs2 else {}
+        back = cxx.run([j for j in jobs2 if not j[1]["passes"] & 4], timeout=30 if tier == "quick" else 120)
+        back.update(cxx.run([j for j in jobs2 if j[1]["passes"] & 4], watchdog=True))
         lean2 = {}
         if self.use_lean:
             reqs, ids = [], []
@@ -265,7 +290,7 @@ class Batch:
             nontrivial = False
             for k, ((kind, a), res) in enumerate(zip(assigns, results)):
                 if res["err"] is not None:
-                    self.findings.append((f"C20 oracle: populateResults raised {res['err'].split(':')[0]} | features: {' '.join(feats) or 'none'} | passes: {ps}",
+                    self.findings.append((signatures([f"populate:raised-{res['err'].split(':')[0]}"], feats, ps)[0],
                                           {"case": case, "passes": ps, "assignment": a, "problems": [res["err"]]}))
                     continue
                 root = res["root"]
@@ -286,17 +311,12 @@ class Batch:
                         if chk is not None:
                             chk.traces_validated += 1
                 probs = oracle.check_result(case, root, res["objective_value"])
-                if probs:
-                    self.findings.append((signature(probs, feats, ps), {"case": case, "passes": ps, "assignment": a, "problems": probs}))
+                for sig in signatures(probs, feats, ps):
+                    self.findings.append((sig, {"case": case, "passes": ps, "assignment": a, "problems": probs}))
             # optimum against the brute force over schedules
             so = oracle.sem_opt(case)
             if so is None:
                 self.count("semopt:too-large")
-            elif so == "infeasible":
-                self.count("semopt:allocations-exceed-capacity")
-                if status == "optimal":
-                    self.findings.append((f"C20 oracle: optimum:model-feasible-although-allocations-exceed-capacity | features: {' '.join(feats) or 'none'} | passes: {ps}",
-                                          {"case": case, "passes": ps, "problems": ["optimum:feasible-but-allocations-exceed-capacity"]}))
             elif status == "optimal":
                 self.count("semopt:compared")
                 coarse = case["gran"] > 1 or (ps & 4)
@@ -306,13 +326,14 @@ class Batch:
                 elif opt < so and not coarse:
                     bad = "optimum:model-below-brute-force"
                 if bad:
-                    self.findings.append((signature([bad], feats, ps), {"case": case, "passes": ps, "problems": [bad], "model_opt": opt, "brute_force_opt": so}))
+                    self.findings.append((signatures([bad], feats, ps)[0], {"case": case, "passes": ps, "problems": [bad], "model_opt": opt, "brute_force_opt": so}))
             elif status == "infeasible":
-                self.findings.append((signature(["optimum:model-infeasible"], feats, ps), {"case": case, "passes": ps, "problems": ["optimum:model-infeasible"], "brute_force_opt": so}))
+                self.findings.append((signatures(["optimum:model-infeasible"], feats, ps)[0], {"case": case, "passes": ps, "problems": ["optimum:model-infeasible"], "brute_force_opt": so}))
             # the same tree with and without passes
-            if ps != 0 and cid in base_opt and base_opt[cid][0] == "optimal" and status == "optimal" and not (ps & 4):
+            # (only informative when the brute force was too large: otherwise both were compared with it above)
+            if so is None and ps != 0 and cid in base_opt and base_opt[cid][0] == "optimal" and status == "optimal" and not (ps & 4):
                 if base_opt[cid][1] != opt:
-                    self.findings.append((signature(["optimum:changes-with-passes"], feats, ps),
+                    self.findings.append((signatures(["optimum:changes-with-passes"], feats, ps)[0],
                                           {"case": case, "passes": ps, "problems": ["optimum:changes-with-passes"], "without": base_opt[cid][1], "with": opt}))
             if chk is not None and ps == 0:
                 chk.case({"case": case, "opt": opt, "n_assignments": len(assigns)}, nontrivial=nontrivial, sample_every=50)
@@ -399,7 +420,7 @@ def replay(path) -> int:
     if rep.get("assignment") is not None:
         r = cxx.run([("replay", case, [rep["assignment"]])])["replay"]
         if r["err"]:
-            print("compile error:", r["err"])
+            print("REPRODUCED compile error:", r["err"])
             return 1
         if not solve.holds(r, rep["assignment"]):
             print("the recorded assignment no longer satisfies the compiled model; searching again")
@@ -407,7 +428,7 @@ def replay(path) -> int:
             res = r["results"][0]
             probs = [res["err"]] if res["err"] else oracle.check_result(case, res["root"], res["objective_value"])
             if probs:
-                print(f"REPRODUCED {signature(probs, feats, case['passes']) if not res['err'] else res['err']}")
+                print(f"REPRODUCED {signatures(probs, feats, case['passes']) if not res['err'] else res['err']}")
                 print(" placements:", json.dumps(res.get("root", {}).get("placements")))
                 print(" problems:", probs)
                 return 1
